@@ -85,7 +85,8 @@ class Geometry(object):
         if translation is None:
             self.__translation = np.zeros(self.ndim)
         else:
-            translation = np.asarray(translation, dtype=float)
+            # Copy, the array may be owned (and later changed) by the caller
+            translation = np.array(translation, dtype=float, copy=True)
             if translation.shape != (self.ndim,):
                 raise ValueError('`translation` must have shape ({},), got {}'
                                  ''.format(self.ndim, translation.shape))
